@@ -765,9 +765,6 @@ Record tobs := { t_n3 : option str;       (* None: n3() raises *)
    (* conformance, computed by the harness: copy/deepcopy/all pickle protocols agree with t_pickle;
       read back through a one-triple Turtle document; through a SPARQL query *)
 
-Definition has_bs_x (s : str) : bool := containsb [bs; 120] s.
-Definition has_bs_quote_multiline (s : str) : bool := mem 10 s && containsb [bs; 34] s.
-
 (* lexical form visible in the n3 text (INF / NaN spelling) *)
 Definition n3_lex (lex : str) (dt : option str) : str :=
   match dt with
@@ -782,29 +779,12 @@ Definition n3_lex (lex : str) (dt : option str) : str :=
   | None => lex
   end.
 
-Definition is_fixed (o : ctor_oracle) (lex : str) (dt : option str) (l : str) : bool :=
-  match ctor_lex o l dt with Some l' => str_eqb l' lex | None => false end.
-
-(* known findings of this suite *)
-Definition tkf (c : tcase) : N :=
-  match t_term c with
-  | Lit lex dt lang =>
-      if negb (is_fixed (t_orc c) lex dt lex && is_fixed (t_orc c) lex dt (n3_lex lex dt)) then 1
-                                                       (* F7a: not a fixed point of the constructor (text read-back only) *)
-      else if mem 9 lex then 7                         (* F7h: the SPARQL parser expands a raw TAB (conformance flag 3 only) *)
-      else 0
-  | _ => 0
-  end.
-
 Definition tmodel_obs (c : tcase) : tobs :=
   let t := t_term c in
-  let flag := if N.eqb (tkf c) 0 || N.eqb (tkf c) 7 then Some true else None in
-  let flag3 := if N.eqb (tkf c) 0 then Some true else None in
-  let flag1 := Some true in
   {| t_n3 := n3 t;
      t_from := match n3 t with Some s => from_n3 (t_orc c) s | None => WRaise end;
      t_pickle := unpickle (t_orc c) t;
-     t_flags := [flag1; flag; flag3] |}.
+     t_flags := [Some true; Some true; Some true] |}.
 
 Definition tobs_eqb (m i : tobs) : bool :=
   ostr_eqb (t_n3 m) (t_n3 i) && wres_eqb (t_from m) (t_from i) && wres_eqb (t_pickle m) (t_pickle i)
@@ -813,11 +793,31 @@ Definition tobs_eqb (m i : tobs) : bool :=
 Definition same_as (t : term) (w : wres) : bool :=
   match w with WTerm t' => term_same t t' | WAny => true | WRaise => false end.
 
+(* the term the default constructor builds from t's lexical form, language and datatype: t itself unless t was
+   built with normalize=False.  Every reader of text (from_n3, the Turtle parser) builds literals through that
+   constructor, so THIS is "the same term" for the text round trips.  WAny: the oracle does not know. *)
+Definition normal_form (o : ctor_oracle) (t : term) : wres :=
+  match t with
+  | Lit lex dt lang =>
+      match ctor_lex o lex dt with
+      | Some lex' => WTerm (Lit lex' dt lang)
+      | None => WAny
+      end
+  | _ => WTerm t
+  end.
+
+Definition same_wres (want got : wres) : bool :=
+  match want, got with
+  | WAny, _ | _, WAny => true
+  | WTerm a, WTerm b => term_same a b
+  | _, _ => false
+  end.
+
 Definition tspec_ok (c : tcase) (o : tobs) : bool :=
   let t := t_term c in
-  same_as t (t_pickle o)
+  same_as t (t_pickle o)                                  (* pickling: exactly the same term *)
   && match t_n3 o with
-     | Some _ => same_as t (t_from o)
+     | Some _ => same_wres (normal_form (t_orc c) t) (t_from o)
      | None => match t with IRI s => negb (valid_uri s) | _ => false end   (* only an IRI n3 cannot write may raise *)
      end
   && forallb (fun f => match f with Some false => false | _ => true end) (t_flags o).
@@ -839,16 +839,27 @@ Definition wf_term (t : term) : bool :=
       end
   end.
 
-(* the part of the text suite for which the from_n3 round trip is PROVED (the rest is checked by running):
-   terms other than literals, and literals whose lexical form needs no escape, is Latin-1 and is not respelled *)
+(* a literal n3() respells (INF / NaN) has a lexical form that needs no escape (" inf\n" with normalize=False is
+   outside the proof, not outside the check), and the oracle agrees that the respelt form denotes the same literal *)
 Definition plain_char (c : N) : bool :=
-  negb (N.eqb c 10) && negb (N.eqb c 13) && negb (N.eqb c 34) && negb (N.eqb c 92) && (c <? 256).
-Definition latin1 (s : str) : bool := forallb (fun c => c <? 256) s.
-Definition text_proved (t : term) : bool :=
+  negb (N.eqb c 10) && negb (N.eqb c 13) && negb (N.eqb c 34) && negb (N.eqb c 92).
+Definition respelled (lex : str) (dt : option str) : bool :=
+  match dt with
+  | Some d => smem d infnan_types && match float_class lex with FOther => false | _ => true end
+  | None => false
+  end.
+Definition twf (c : tcase) : bool :=
+  let t := t_term c in
+  wf_term t &&
   match t with
-  | IRI s => latin1 s
   | Lit lex dt _ =>
-      forallb plain_char lex
-      && match dt with Some d => negb (smem d infnan_types) && latin1 d | None => true end
+      if respelled lex dt then
+        forallb plain_char lex
+        && match ctor_lex (t_orc c) lex dt, ctor_lex (t_orc c) (n3_lex lex dt) dt with
+           | Some a, Some b => str_eqb a b
+           | None, _ => true
+           | _, None => true
+           end
+      else true
   | _ => true
   end.
